@@ -31,15 +31,16 @@ THEOREMS = ['Props.C14.' + t for t in [
     'single_potential_r1', 'single_potential_r2', 'single_potential_r3',
     'region_classifier_one', 'region_classifier_two', 'region_classifier_three', 'region_classifier_none',
     'region_classifier_total', 'region_equation_valid',
-    'sat_root', 'tsat_root', 'sat_tsat_inverse_partial', 'tsat_sat_inverse_partial', 'tsat_outside_range', 'sat_tsat_critical_end', 'visc_pos', 'b23_near_inverse', 'b23_near_inverse_p',
+    'sat_root', 'tsat_root', 'sat_tsat_inverse_on', 'tsat_sat_inverse_on', 'sat_tsat_inverse_partial', 'tsat_sat_inverse_partial', 'tsat_outside_range', 'sat_tsat_critical_end', 'visc_pos', 'b23_near_inverse', 'b23_near_inverse_p',
 ]]
-LEVEL_TEXT = ('Proof (partial): 21 Lean theorems about definitions regenerated from IAPWS97.py on every run, over the reals: all ten '
+LEVEL_TEXT = ('Proof (partial): 23 Lean theorems about definitions regenerated from IAPWS97.py on every run, over the reals: all ten '
               'power_array chains well formed and computing v^k (decide + induction); every index read by the sums is defined; the values of '
               'cowat / supst / super are the partial derivatives of ONE potential each (Gibbs regions 1, 2, Helmholtz region 3) at every state '
               'of 0..350 degC x <=100 MPa, 0..800 degC x (0,100 MPa], every density and t>=0 (HasDerivAt, no sorry); the region classifier '
               'returns 1/2/3/None exactly on the validity domains and the named routine accepts the state; sat and tsat solve the same implicit '
-              'equation and tsat(sat t)=t, sat(tsat p)=p exactly whenever the range tests and branch conditions hold (_partial: branch '
-              'inequalities are hypotheses, evaluated on every explored state); the critical-end failure of the inverse is PROVED '
+              'equation; tsat(sat t)=t is PROVED for every 0.01 <= t <= 373.9 degC and sat(tsat p)=p for every 613 Pa <= p <= 22.039 MPa with '
+              'no further hypothesis (85-piece interval cover of the saturation line + intermediate value theorem); on the last 0.046 K the '
+              '_partial versions carry the branch inequalities as hypotheses; the critical-end failure of the inverse is PROVED '
               '(sat(tcritical) > pcritical in exact arithmetic); visc > 0 for every density and t >= 0; b23t(b23p t) - t in [0, 1e-9] K and |b23p(b23t p) - p| <= 1e-4 Pa on '
               '350..590 degC.  NOT proved, sampled by the oracle only: density monotone in pressure, agreement across region boundaries '
               'within the IAPWS-IF97 tolerances.  Tie: AST translator + bit-for-bit Float validation '
